@@ -91,9 +91,18 @@ class AsyncIORuntime(SubscriptionRuntime):
         if has_pending:
 
             async def _await_values() -> Iterable[T]:
-                for i, awaited in zip(
-                    pending_idx, await asyncio.gather(*pending)
-                ):
+                futures = [asyncio.ensure_future(p) for p in pending]
+                try:
+                    results = await asyncio.gather(*futures)
+                except BaseException:
+                    # `asyncio.gather` leaves the other members running when
+                    # one of them fails: cancel them, the outcome of this
+                    # gather is decided and nothing may be reported (e.g. as a
+                    # field error of a later subscription event) on its behalf.
+                    for fut in futures:
+                        fut.cancel()
+                    raise
+                for i, awaited in zip(pending_idx, results):
                     done[i] = awaited
                 return done
 
